@@ -306,6 +306,15 @@ def check_C18(ctx):
                 assumptions=["in-process servers; the disk cache and both front ends are configured with the same limit, as main() does"])
 
 
+def check_C19(ctx):
+    b = ctx.bin("./config")
+    jobs = [Job(b, "TestVfC19", name="C19:config", timeout=2400)]
+    return dict(level="exploration", jobs=jobs,
+                rule="deviation-bounded configuration enumeration: the required settings plus every subset of <=2 (thorough <=3) of 28 further settings x their values (with the companions a setting needs), each rendered as command-line flags, as environment variables and as YAML and parsed by the real flag/YAML code; deprecated host/port forms against the address forms; 21 invalid classes, each alone and combined with every single other valid deviation; non-trivial = distinct configurations on which the three front ends were compared",
+                assumptions=["basic Config fields are compared (loggers, TLS objects and proxy clients are not constructed)",
+                             "listener addresses and max_size_hard_limit are always given explicitly because their defaults intentionally differ between flags and YAML"])
+
+
 def check_C17(ctx):
     th = ctx.thorough()
     jobs = e2lru_jobs(ctx, "C17", 6 if th else 4, 1500 if th else 100, hard_extras=(-1, 0, 1, 2))
@@ -369,7 +378,7 @@ def check_C13(ctx):
                              "a method unknown to the harness's read-only list is treated as mutating"])
 
 
-CHECKS = {"C01": check_C01, "C02": check_C02, "C08": check_C08, "C09": check_C09, "C06": check_C06, "C10": check_C10, "C11": check_C11, "C12": check_C12, "C13": check_C13, "C14": check_C14, "C15": check_C15, "C16": check_C16, "C17": check_C17, "C18": check_C18, "C03": check_C03, "C04": check_C04, "C05": check_C05, "C07": check_C07}
+CHECKS = {"C01": check_C01, "C02": check_C02, "C08": check_C08, "C09": check_C09, "C06": check_C06, "C10": check_C10, "C11": check_C11, "C12": check_C12, "C13": check_C13, "C14": check_C14, "C15": check_C15, "C16": check_C16, "C17": check_C17, "C18": check_C18, "C19": check_C19, "C03": check_C03, "C04": check_C04, "C05": check_C05, "C07": check_C07}
 
 # per-property manifest metadata
 META = {
@@ -415,6 +424,12 @@ META = {
         note="Channel/pipe interleavings inside the handler are not controlled (Go channel operations cannot be intercepted by import rewriting); inputs are enumerated exhaustively.",
         technique="exhaustive enumeration of bounded message sequences through the real stream handler against a protocol table",
         design_ref="DESIGN.md 3 (C16)"),
+    "C19": dict(
+        category="exploration", engine="E4 grid",
+        text="Deviation-bounded exhaustive enumeration of configurations through the real front ends (urfave/cli flags incl. their environment variables, and the YAML loader): required settings plus all subsets of up to 2 (3) of 28 settings x values, each given three ways; differential oracle: the three effective Config structs (basic fields) must be identical, no expected values written by hand; deprecated host/port forms mean the same as the address forms; 21 classes of set-ups that cannot work (missing dir/max_size, unknown storage mode or zstd implementation, one port for HTTP and gRPC, half-specified TLS, mTLS without server certificate, unauthenticated reads without authentication, two proxy backends, non-positive blob limits, malformed listener addresses, asset API without gRPC) must be refused by all three front ends, alone and next to every other valid deviation.",
+        note="S3/Azure/LDAP nested settings are covered through one representative each; their own validation rules are not enumerated.",
+        technique="exhaustive deviation-bounded configuration enumeration with a three-way differential oracle",
+        design_ref="DESIGN.md 3 (C19)"),
     "C18": dict(
         category="exploration", engine="E4 grid",
         text="Exhaustive finite grid on both sides of each limit: every write path (13) x max_blob_size {1, 4 KiB, 1 MiB} x size {L-1, L, L+1, 4L} x compressible/incompressible content x storage mode: accept <=> logical size <= L, refusals are client errors and store nothing, GetCapabilities.max_cas_blob_size_bytes == L; every backend-read path x max_proxy_blob_size x object size {P-1, P, P+1}: oversize objects are never served, cached or reported present, and the backend is not asked when the requested size already exceeds the limit.",
